@@ -80,6 +80,7 @@ type FuncSpec struct {
 	Clauses  []*Clause
 	NoPanic  bool
 	NoPanicT []string
+	NoPanicKinds map[string]bool // nil: every kind
 	Inline   string // "", "never", "always"
 	IntMode  string // "" (64-bit vectors) or "math"
 	Reveal   []string
@@ -415,9 +416,16 @@ func parseSpecFile(path string, ps *PkgSpec, trustedFile bool) error {
 					cur.Results = append(cur.Results, strings.TrimSpace(r))
 				}
 			case "nopanic":
+				// nopanic [kinds k1 k2 ...] @tags   kinds: nil nilresult index slice divzero typeassert (default: all)
 				cur.NoPanic = true
-				_, _, tags := splitLabelTags(" " + rest)
+				text, _, tags := splitLabelTags(" " + rest)
 				cur.NoPanicT = tags
+				if f := strings.Fields(text); len(f) > 1 && f[0] == "kinds" {
+					cur.NoPanicKinds = map[string]bool{}
+					for _, k := range f[1:] {
+						cur.NoPanicKinds[k] = true
+					}
+				}
 			case "ghostset":
 				// ghostset VAR TYPE = EXPR [if COND]
 				eqi := strings.Index(rest, " = ")
